@@ -60,12 +60,12 @@ func harnessOverlay() map[string]string {
 		}
 		rel, _ := filepath.Rel(root, p)
 		dir, base := filepath.Split(rel)
-		ov["/repo/"+dir+"zz_verif_"+base] = p
+		ov[repoDir+"/"+dir+"zz_verif_"+base] = p
 		return nil
 	})
 	vs, _ := filepath.Glob("/verif/vsym/*.go")
 	for _, f := range vs {
-		ov["/repo/internal/vsym/"+filepath.Base(f)] = f
+		ov[repoDir+"/internal/vsym/"+filepath.Base(f)] = f
 	}
 	return ov
 }
